@@ -4,6 +4,7 @@ package c09
 import (
 	"bytes"
 	"fmt"
+	"net"
 	"strings"
 	"testing"
 	"time"
@@ -32,7 +33,27 @@ type jRR struct {
 	Class uint16 `json:"class"`
 	TTL   uint32 `json:"ttl"`
 	RData vf.Hex `json:"rdata"`
+	// The record's RDATA is RData followed by Pad pattern bytes (so that RDATA up to the 16-bit
+	// limit costs neither draws nor replay-file space).
+	Pad     int   `json:"rdata_pad,omitempty"`
+	PadSeed uint8 `json:"rdata_pad_seed,omitempty"`
+	// What the caller leaves in ResourceRecord.RDLength when handing the record to the library:
+	// nil = len(RData) (as AddAnswerClassINTypeA does), otherwise this value (0 = the plain struct
+	// literal, anything else = a stale count). The encoder recomputes it, so it must not matter.
+	RDLenField *uint16 `json:"rdlength_field,omitempty"`
 }
+
+// data is the record's RDATA: the explicit bytes followed by the pad pattern.
+func (r jRR) data() []byte {
+	out := make([]byte, 0, len(r.RData)+r.Pad)
+	out = append(out, r.RData...)
+	out = out[:len(r.RData)+r.Pad]
+	for i, pad := 0, out[len(r.RData):]; i < len(pad); i++ {
+		pad[i] = r.PadSeed + byte(i)*7 + byte(i>>8)
+	}
+	return out
+}
+
 type msgCase struct {
 	ID         uint16 `json:"id"`
 	Flags      uint16 `json:"flags"`
@@ -41,6 +62,9 @@ type msgCase struct {
 	Authority  []jRR  `json:"authority"`
 	Additional []jRR  `json:"additional"`
 	Choices    []int  `json:"compression_choices,omitempty"` // consumed by the reference encoder
+	// Root lets the reference encoder also end names in a pointer to an earlier root terminator
+	// (a prior occurrence of the empty suffix).
+	Root bool `json:"root_pointers,omitempty"`
 }
 
 func (n jName) ref() dns.Name {
@@ -66,12 +90,21 @@ func (c msgCase) ref() *dns.Message {
 	conv := func(in []jRR) []dns.RR {
 		var out []dns.RR
 		for _, r := range in {
-			out = append(out, dns.RR{Name: r.Name.ref(), Type: r.Type, Class: r.Class, TTL: r.TTL, RData: append([]byte{}, r.RData...)})
+			out = append(out, dns.RR{Name: r.Name.ref(), Type: r.Type, Class: r.Class, TTL: r.TTL, RData: r.data()})
 		}
 		return out
 	}
 	m.Answers, m.Authority, m.Additional = conv(c.Answers), conv(c.Authority), conv(c.Additional)
 	return m
+}
+
+func (r jRR) lib() llmnr.ResourceRecord {
+	d := r.data()
+	rr := llmnr.ResourceRecord{Name: r.Name.text(), Type: r.Type, Class: r.Class, TTL: r.TTL, RDLength: uint16(len(d)), RData: d}
+	if r.RDLenField != nil {
+		rr.RDLength = *r.RDLenField
+	}
+	return rr
 }
 
 func (c msgCase) lib() *llmnr.Message {
@@ -83,7 +116,7 @@ func (c msgCase) lib() *llmnr.Message {
 	conv := func(in []jRR) []llmnr.ResourceRecord {
 		var out []llmnr.ResourceRecord
 		for _, r := range in {
-			out = append(out, llmnr.ResourceRecord{Name: r.Name.text(), Type: r.Type, Class: r.Class, TTL: r.TTL, RDLength: uint16(len(r.RData)), RData: append([]byte{}, r.RData...)})
+			out = append(out, r.lib())
 		}
 		return out
 	}
@@ -146,8 +179,8 @@ func compareLib(who string, got *llmnr.Message, c msgCase) []vf.Finding {
 			if g.Type != r.Type || g.Class != r.Class || g.TTL != r.TTL {
 				fs = append(fs, vf.F(who, sec.name+"-fixed-fields-differ", "%s %d: got %d/%d/%d want %d/%d/%d", sec.name, i, g.Type, g.Class, g.TTL, r.Type, r.Class, r.TTL))
 			}
-			if !bytes.Equal(g.RData, r.RData) || int(g.RDLength) != len(r.RData) {
-				fs = append(fs, vf.F(who, sec.name+"-rdata-differs", "%s %d: got %d bytes (rdlength %d) want %d", sec.name, i, len(g.RData), g.RDLength, len(r.RData)))
+			if want := r.data(); !bytes.Equal(g.RData, want) || int(g.RDLength) != len(want) {
+				fs = append(fs, vf.F(who, sec.name+"-rdata-differs", "%s %d: got %d bytes (rdlength %d) want %d", sec.name, i, len(g.RData), g.RDLength, len(want)))
 			}
 		}
 	}
@@ -191,7 +224,7 @@ func compareRef(who string, got *dns.Message, c msgCase) []vf.Finding {
 		for i := range sec.want {
 			g, w := sec.got[i], sec.want[i]
 			if !eqName(g.Name, w.Name) || g.Type != w.Type || g.Class != w.Class || g.TTL != w.TTL || !bytes.Equal(g.RData, w.RData) {
-				fs = append(fs, vf.F(who, sec.name+"-record-differs", "%s %d: got %+v want %+v", sec.name, i, g, w))
+				fs = append(fs, vf.F(who, sec.name+"-record-differs", "%s %d: got %q %d/%d/%d rdata %d bytes want %q %d/%d/%d rdata %d bytes", sec.name, i, g.Name, g.Type, g.Class, g.TTL, len(g.RData), w.Name, w.Type, w.Class, w.TTL, len(w.RData)))
 			}
 		}
 	}
@@ -200,21 +233,31 @@ func compareRef(who string, got *dns.Message, c msgCase) []vf.Finding {
 
 // ---- generators ------------------------------------------------------------------------
 
+// generators of the per-byte draws, built once (constructing one per draw dominated the run time)
+var (
+	gLabLenClass = rapid.IntRange(0, 4)
+	gLabEdge     = rapid.SampledFrom([]int{1, 62, 63})
+	gLabLen      = rapid.IntRange(1, 12)
+	gByteClass   = rapid.IntRange(0, 3)
+	gByte        = rapid.Byte()
+	gAlpha       = rapid.IntRange('a', 'z')
+)
+
 func genLabel(t *rapid.T) vf.Hex {
 	var n int
-	switch rapid.IntRange(0, 4).Draw(t, "labLenClass") {
+	switch gLabLenClass.Draw(t, "labLenClass") {
 	case 0:
-		n = rapid.SampledFrom([]int{1, 62, 63}).Draw(t, "labEdge")
+		n = gLabEdge.Draw(t, "labEdge")
 	default:
-		n = rapid.IntRange(1, 12).Draw(t, "labLen")
+		n = gLabLen.Draw(t, "labLen")
 	}
 	b := make([]byte, n)
 	for i := range b {
-		switch rapid.IntRange(0, 3).Draw(t, "byteClass") {
+		switch gByteClass.Draw(t, "byteClass") {
 		case 0:
-			b[i] = rapid.Byte().Draw(t, "any")
+			b[i] = gByte.Draw(t, "any")
 		default:
-			b[i] = byte(rapid.IntRange('a', 'z').Draw(t, "alpha"))
+			b[i] = byte(gAlpha.Draw(t, "alpha"))
 		}
 		if b[i] == '.' {
 			b[i] = '-'
@@ -262,35 +305,119 @@ func genName(t *rapid.T, pool *[]jName) jName {
 	return n
 }
 
-func genRData(t *rapid.T, max int) vf.Hex {
+// rdataLimits are the RDATA lengths at which an 8-, 15- or 16-bit view of RDLENGTH changes.
+var rdataLimits = []int{255, 256, 32767, 32768, 65534, 65535}
+
+// genRData draws the RDATA of one record: explicit random bytes (0..max) and, in the length
+// classes that would be too costly to draw byte by byte, a pattern pad up to the 16-bit limit.
+func genRData(t *rapid.T, max int) (data vf.Hex, pad int, seed uint8) {
 	var n int
-	switch rapid.IntRange(0, 5).Draw(t, "rdClass") {
-	case 0:
+	switch rapid.IntRange(0, 23).Draw(t, "rdClass") {
+	case 0, 1, 2, 3:
 		n = 0
-	case 1:
+	case 4, 5, 6, 7:
 		n = rapid.SampledFrom([]int{4, 16}).Draw(t, "rdAddr")
-	case 2:
+	case 8, 9, 10, 11:
 		n = rapid.IntRange(0, max).Draw(t, "rdLen")
+	case 12:
+		// any length 0..65535, the limits in particular
+		if rapid.Bool().Draw(t, "rdAtLimit") {
+			pad = rapid.SampledFrom(rdataLimits).Draw(t, "rdLimit")
+		} else {
+			pad = rapid.IntRange(0, 65535).Draw(t, "rdAny")
+		}
+		n = rapid.IntRange(0, 8).Draw(t, "rdHead")
+		if n > pad {
+			n = pad
+		}
+		pad -= n
+		seed = rapid.Byte().Draw(t, "rdSeed")
 	default:
 		n = rapid.IntRange(0, 40).Draw(t, "rdSmall")
 	}
-	return rapid.SliceOfN(rapid.Byte(), n, n).Draw(t, "rdata")
+	return rapid.SliceOfN(gByte, n, n).Draw(t, "rdata"), pad, seed
 }
+
+// genRDLenField: what the caller leaves in ResourceRecord.RDLength (see jRR.RDLenField).
+func genRDLenField(t *rapid.T) *uint16 {
+	var v uint16
+	switch rapid.IntRange(0, 3).Draw(t, "rdlenField") {
+	case 0:
+		return nil
+	case 1, 2:
+		v = 0
+	default:
+		v = rapid.Uint16().Draw(t, "rdlenStale")
+	}
+	return &v
+}
+
+func genRR(t *rapid.T, pool *[]jName, maxRData int) jRR {
+	r := jRR{Name: genName(t, pool), Type: rapid.Uint16().Draw(t, "type"), Class: rapid.Uint16().Draw(t, "class"), TTL: rapid.Uint32().Draw(t, "ttl")}
+	r.RData, r.Pad, r.PadSeed = genRData(t, maxRData)
+	r.RDLenField = genRDLenField(t)
+	return r
+}
+
+// rarely is true in roughly pct/2 percent of the draws (pct <= 50). rapid's integer generators
+// favour small values and the ends of a range (0 and 1 come up ~10 % each in 0..99), the middle of the
+// range is flat at ~0.5 % per value; shrinking moves towards 0 = "not this time".
+func rarely(t *rapid.T, label string, pct int) bool {
+	v := rapid.IntRange(0, 99).Draw(t, label)
+	return v >= 40 && v < 40+pct
+}
+
+// bigCounts are section sizes around the point where a count stops fitting 8 bits.
+var bigCounts = []int{255, 256, 257, 300}
 
 func genMsg(t *rapid.T, maxRData int) msgCase {
 	var pool []jName
 	c := msgCase{ID: rapid.Uint16().Draw(t, "id"), Flags: rapid.Uint16().Draw(t, "flags")}
-	for i, n := 0, rapid.IntRange(0, 4).Draw(t, "nq"); i < n; i++ {
+	// about one case in 40 has one section with more entries than an 8-bit counter holds: a few drawn
+	// entries repeated cyclically, made distinct (and their order observable) through the type field
+	big, bigN := -1, 0
+	if rarely(t, "bigSection", 5) {
+		big = rapid.IntRange(0, 3).Draw(t, "bigWhich")
+		bigN = rapid.SampledFrom(bigCounts).Draw(t, "bigCount")
+	}
+	count := func(label string, sec int) (drawn, total int) {
+		if sec == big {
+			return rapid.IntRange(1, 3).Draw(t, label), bigN
+		}
+		n := rapid.IntRange(0, 4).Draw(t, label)
+		return n, n
+	}
+	drawn, total := count("nq", 0)
+	for i := 0; i < drawn; i++ {
 		c.Questions = append(c.Questions, jQ{genName(t, &pool), rapid.Uint16().Draw(t, "qtype"), rapid.Uint16().Draw(t, "qclass")})
 	}
-	sec := func(label string) []jRR {
+	for i := drawn; i < total; i++ {
+		q := c.Questions[i%drawn]
+		q.Type += uint16(i / drawn)
+		c.Questions = append(c.Questions, q)
+	}
+	sec := func(label string, idx int) []jRR {
 		var out []jRR
-		for i, n := 0, rapid.IntRange(0, 4).Draw(t, label); i < n; i++ {
-			out = append(out, jRR{genName(t, &pool), rapid.Uint16().Draw(t, "type"), rapid.Uint16().Draw(t, "class"), rapid.Uint32().Draw(t, "ttl"), genRData(t, maxRData)})
+		drawn, total := count(label, idx)
+		max := maxRData
+		if total > drawn {
+			max = 40
+		}
+		for i := 0; i < drawn; i++ {
+			r := genRR(t, &pool, max)
+			if total > drawn && r.Pad > 64 {
+				r.Pad = 64
+			}
+			out = append(out, r)
+		}
+		for i := drawn; i < total; i++ {
+			r := out[i%drawn]
+			r.Type += uint16(i / drawn)
+			out = append(out, r)
 		}
 		return out
 	}
-	c.Answers, c.Authority, c.Additional = sec("nan"), sec("nns"), sec("nar")
+	c.Answers, c.Authority, c.Additional = sec("nan", 1), sec("nns", 2), sec("nar", 3)
 	return c
 }
 
@@ -313,8 +440,37 @@ func nontrivial(c msgCase) bool {
 
 // ---- sub-checks --------------------------------------------------------------------------
 
+// classify counts the generator classes the red-team gaps were about (evidence only).
+func classify(s *vf.Sub, c msgCase) {
+	if len(c.Questions) > 255 || len(c.Answers) > 255 || len(c.Authority) > 255 || len(c.Additional) > 255 {
+		s.Class("section-over-255-entries")
+	}
+	for _, sec := range [][]jRR{c.Answers, c.Authority, c.Additional} {
+		for _, r := range sec {
+			n := len(r.RData) + r.Pad
+			if n >= 32768 {
+				s.Class("rdata>=32768")
+			}
+			if n == 65535 {
+				s.Class("rdata=65535")
+			}
+			if r.RDLenField != nil && int(*r.RDLenField) != n {
+				s.Class("rdlength-field-not-len(rdata)")
+			}
+		}
+	}
+}
+
+func classified(s *vf.Sub, chk func(msgCase) []vf.Finding) func(msgCase) []vf.Finding {
+	return func(c msgCase) []vf.Finding {
+		classify(s, c)
+		return chk(c)
+	}
+}
+
 func checkRoundtrip(c msgCase) []vf.Finding {
-	wire, err := c.lib().Encode()
+	m := c.lib()
+	wire, err := m.Encode()
 	if err != nil {
 		return []vf.Finding{vf.F("Message.Encode", "valid-message-rejected", "%v", err)}
 	}
@@ -323,6 +479,14 @@ func checkRoundtrip(c msgCase) []vf.Finding {
 		return []vf.Finding{vf.F("llmnr.DecodeMessage", "own-encoding-rejected", "%v (wire %d bytes)", err, len(wire))}
 	}
 	fs := compareLib("DecodeMessage(Encode(m))", got, c)
+	// Validate (header counts equal the slices, names within the label/name limits) holds for the
+	// message Encode has just recomputed the counts of, and for what DecodeMessage returns for it
+	if err := m.Validate(); err != nil {
+		fs = append(fs, vf.F("Message.Validate", "valid-message-rejected", "after Encode: %v", err))
+	}
+	if err := got.Validate(); err != nil {
+		fs = append(fs, vf.F("Message.Validate", "valid-message-rejected", "decoded message: %v", err))
+	}
 	// encode∘decode is the identity on the library's own output (root name included)
 	if again, err := got.Encode(); err != nil || !bytes.Equal(again, wire) {
 		fs = append(fs, vf.F("Message.Encode", "reencoding-decoded-message-differs", "err %v; %d vs %d bytes", err, len(again), len(wire)))
@@ -332,7 +496,7 @@ func checkRoundtrip(c msgCase) []vf.Finding {
 
 func TestRoundtrip(t *testing.T) {
 	s := vf.Begin(t, P, "roundtrip")
-	vf.Rapid(s, vf.N(15000, 200000), func(t *rapid.T) msgCase { return genMsg(t, vf.N(512, 4000)) }, checkRoundtrip, nontrivial)
+	vf.Rapid(s, vf.N(15000, 200000), func(t *rapid.T) msgCase { return genMsg(t, vf.Size(512, 4000)) }, classified(s, checkRoundtrip), nontrivial)
 }
 
 func checkRefParsesLib(c msgCase) []vf.Finding {
@@ -353,23 +517,34 @@ func checkRefParsesLib(c msgCase) []vf.Finding {
 
 func TestRefParsesLib(t *testing.T) {
 	s := vf.Begin(t, P, "ref-parses-lib")
-	vf.Rapid(s, vf.N(15000, 200000), func(t *rapid.T) msgCase { return genMsg(t, vf.N(512, 4000)) }, checkRefParsesLib, nontrivial)
+	vf.Rapid(s, vf.N(15000, 200000), func(t *rapid.T) msgCase { return genMsg(t, vf.Size(512, 4000)) }, classified(s, checkRefParsesLib), nontrivial)
 }
 
-func checkLibParsesRef(c msgCase) []vf.Finding {
-	i := 0
-	var choice func(int) int
-	if len(c.Choices) > 0 {
-		choice = func(n int) int {
-			v := c.Choices[i%len(c.Choices)]
-			i++
-			if v < 0 {
-				return -1
-			}
-			return v % n
-		}
+// chooser turns the case's choice list into the reference encoder's Choice callback (nil = no
+// compression): the list is consumed cyclically, a negative entry writes the name out.
+func (c msgCase) chooser() func(int) int {
+	if len(c.Choices) == 0 {
+		return nil
 	}
-	wire, _ := dns.Encode(c.ref(), choice)
+	i := 0
+	return func(n int) int {
+		v := c.Choices[i%len(c.Choices)]
+		i++
+		if v < 0 {
+			return -1
+		}
+		return v % n
+	}
+}
+
+func (c msgCase) refWire() ([]byte, dns.Stats) { return dns.EncodeOpt(c.ref(), c.chooser(), c.Root) }
+
+func checkLibParsesRef(c msgCase) []vf.Finding {
+	wire, _ := c.refWire()
+	return checkLibParsesWire(c, wire)
+}
+
+func checkLibParsesWire(c msgCase, wire []byte) []vf.Finding {
 	// the reference must accept its own output (harness sanity)
 	if back, err := dns.Parse(wire); err != nil || len(compareRef("ref", back, c)) != 0 {
 		return []vf.Finding{vf.F("harness", "reference-codec-not-self-consistent", "%v", err)}
@@ -377,7 +552,7 @@ func checkLibParsesRef(c msgCase) []vf.Finding {
 	var got *llmnr.Message
 	var err error
 	if !vf.WithTimeout(10*time.Second, func() { got, err = llmnr.DecodeMessage(wire) }) {
-		return []vf.Finding{vf.F("llmnr.DecodeMessage", "does-not-terminate", "wire %x", wire)}
+		return []vf.Finding{vf.F("llmnr.DecodeMessage", "does-not-terminate", "wire %d bytes", len(wire))}
 	}
 	if err != nil {
 		return []vf.Finding{vf.F("llmnr.DecodeMessage", "rfc1035-encoding-rejected", "%v", err)}
@@ -387,37 +562,283 @@ func checkLibParsesRef(c msgCase) []vf.Finding {
 
 func TestLibParsesRef(t *testing.T) {
 	s := vf.Begin(t, P, "lib-parses-ref")
-	vf.Rapid(s, vf.N(10000, 150000), func(t *rapid.T) msgCase { return genMsg(t, vf.N(512, 4000)) }, checkLibParsesRef, nontrivial)
+	vf.Rapid(s, vf.N(10000, 150000), func(t *rapid.T) msgCase { return genMsg(t, vf.Size(512, 4000)) }, classified(s, checkLibParsesRef), nontrivial)
 }
 
-func countPointers(c msgCase) int {
-	i := 0
-	_, p := dns.Encode(c.ref(), func(n int) int {
-		v := c.Choices[i%len(c.Choices)]
-		i++
-		if v < 0 {
-			return -1
+func genChoices(t *rapid.T) []int {
+	var out []int
+	k := rapid.IntRange(1, 12).Draw(t, "nchoices")
+	for i := 0; i < k; i++ {
+		// mostly compress; -1 = write the name out
+		if rapid.IntRange(0, 4).Draw(t, "plain") == 0 {
+			out = append(out, -1)
+		} else {
+			out = append(out, rapid.IntRange(0, 50).Draw(t, "choice"))
 		}
-		return v % n
-	})
-	return p
+	}
+	return out
+}
+
+// genCompressed: a message for the compressing reference encoder. One case in six starts its
+// answer section with a record whose RDATA pushes every later name - and so the targets of the
+// pointers to them - anywhere into the 14-bit offset range (a pointer is 0xC000 | offset, offsets
+// from 0x0100, 0x1000, 0x2000 exercise every bit of the mask).
+func genCompressed(t *rapid.T) msgCase {
+	c := genMsg(t, 64)
+	if rarely(t, "lead", 30) {
+		var pad int
+		if rapid.Bool().Draw(t, "leadAtBit") {
+			pad = rapid.SampledFrom([]int{0x0100, 0x0200, 0x0400, 0x0800, 0x1000, 0x2000, 0x3000, 0x3F00}).Draw(t, "leadBit") - rapid.IntRange(0, 96).Draw(t, "leadBack")
+		} else {
+			pad = rapid.IntRange(0, 0x3FF0).Draw(t, "leadAny")
+		}
+		lead := jRR{Name: jName{}, Type: 16, Class: 1, TTL: rapid.Uint32().Draw(t, "leadTTL"), Pad: pad, PadSeed: rapid.Byte().Draw(t, "leadSeed")}
+		c.Answers = append([]jRR{lead}, c.Answers...)
+	}
+	c.Choices = genChoices(t)
+	return c
+}
+
+func classifyPointers(s *vf.Sub, st dns.Stats) {
+	for _, lim := range []int{0x100, 0x1000, 0x2000, 0x3000} {
+		if st.MaxTarget >= lim {
+			s.Class(fmt.Sprintf("pointer-target>=%#x", lim))
+		}
+	}
+	if st.Chained > 0 {
+		s.Class("chained-pointer")
+	}
+	if st.RootPointers > 0 {
+		s.Class("pointer-to-root")
+	}
+	if st.RootAfter > 0 {
+		s.Class("labels-then-pointer-to-root")
+	}
 }
 
 func TestCompression(t *testing.T) {
 	s := vf.Begin(t, P, "compression")
-	vf.Rapid(s, vf.N(10000, 150000), func(t *rapid.T) msgCase {
-		c := genMsg(t, 64)
-		k := rapid.IntRange(1, 12).Draw(t, "nchoices")
-		for i := 0; i < k; i++ {
-			// mostly compress; -1 = write the name out
-			if rapid.IntRange(0, 4).Draw(t, "plain") == 0 {
-				c.Choices = append(c.Choices, -1)
-			} else {
-				c.Choices = append(c.Choices, rapid.IntRange(0, 50).Draw(t, "choice"))
+	var st dns.Stats // of the case being checked: vf runs the oracle, then the non-triviality rule, on one goroutine
+	vf.Rapid(s, vf.N(10000, 150000), genCompressed, func(c msgCase) []vf.Finding {
+		var wire []byte
+		wire, st = c.refWire()
+		classifyPointers(s, st)
+		return checkLibParsesWire(c, wire)
+	}, func(c msgCase) bool { return st.Pointers > 0 })
+}
+
+// A name may also end in a pointer to an earlier occurrence of the root name, i.e. to the zero
+// octet that terminates a written-out name ("a" = 01 'a' C0 xx with a zero at xx), and the root name
+// itself may be written as such a pointer: the remaining placement of backward pointers. Same
+// generator and oracle as "compression", with the empty suffix among the pointer candidates.
+func TestCompressionRoot(t *testing.T) {
+	s := vf.Begin(t, P, "compression-root-pointers")
+	var st dns.Stats
+	vf.Rapid(s, vf.N(6000, 100000), func(t *rapid.T) msgCase {
+		c := genCompressed(t)
+		c.Root = true
+		return c
+	}, func(c msgCase) []vf.Finding {
+		var wire []byte
+		wire, st = c.refWire()
+		classifyPointers(s, st)
+		return checkLibParsesWire(c, wire)
+	}, func(c msgCase) bool { return st.RootPointers > 0 })
+}
+
+// ---- RDATA length limits ---------------------------------------------------------------------
+
+type rdLimitCase struct {
+	Len     int    `json:"rdata_len"`
+	Section string `json:"section"`
+	Follow  bool   `json:"followed_by_another_record"`
+	Field   string `json:"rdlength_field"` // len, zero
+}
+
+func (c rdLimitCase) msg() msgCase {
+	r := jRR{Name: jName{vf.Hex("host"), vf.Hex("local")}, Type: 16, Class: 1, TTL: 30, Pad: c.Len, PadSeed: byte(c.Len)}
+	if c.Field == "zero" {
+		r.RDLenField = new(uint16)
+	}
+	recs := []jRR{r}
+	if c.Follow {
+		recs = append(recs, jRR{Name: jName{vf.Hex("next")}, Type: 1, Class: 1, TTL: 1, RData: vf.Hex{10, 0, 0, 1}})
+	}
+	m := msgCase{ID: 0x1234, Flags: 0x8000, Questions: []jQ{{jName{vf.Hex("host"), vf.Hex("local")}, 255, 1}}}
+	switch c.Section {
+	case "answer":
+		m.Answers = recs
+	case "authority":
+		m.Authority = recs
+	default:
+		m.Additional = recs
+	}
+	return m
+}
+
+// TestRDataLimits: RDATA of every length at which an 8/15/16-bit reading of RDLENGTH changes, in
+// each record section, alone and followed by another record, through all three directions.
+func TestRDataLimits(t *testing.T) {
+	s := vf.Begin(t, P, "rdata-limits")
+	s.SetExhaustive()
+	vf.Enum(s, func(yield func(rdLimitCase)) {
+		for _, n := range append([]int{0, 1}, rdataLimits...) {
+			for _, sec := range []string{"answer", "authority", "additional"} {
+				for _, follow := range []bool{false, true} {
+					for _, field := range []string{"len", "zero"} {
+						yield(rdLimitCase{n, sec, follow, field})
+					}
+				}
 			}
 		}
+	}, func(c rdLimitCase) []vf.Finding {
+		m := c.msg()
+		fs := checkRoundtrip(m)
+		fs = append(fs, checkRefParsesLib(m)...)
+		fs = append(fs, checkLibParsesRef(m)...)
+		m.Choices = []int{0}
+		return append(fs, checkLibParsesRef(m)...)
+	}, func(c rdLimitCase) bool { return c.Len >= 255 })
+}
+
+// ---- messages built through the Add* API ------------------------------------------------------
+
+type apiOp struct {
+	Kind string `json:"op"` // question, answer, a, aaaa
+	Name jName  `json:"name"`
+	// question / answer
+	Type  uint16 `json:"type,omitempty"`
+	Class uint16 `json:"class,omitempty"`
+	// answer (TTL, RData, Pad, RDLenField) ; a / aaaa: RData is the 4 / 16 address bytes
+	RR jRR `json:"rr"`
+}
+
+type apiCase struct {
+	ID    uint16  `json:"id"`
+	Flags uint16  `json:"flags"`
+	Ops   []apiOp `json:"ops"`
+}
+
+// model: the content the calls are documented to produce. AddQuestion appends the question,
+// AddAnswer the record; AddAnswerClassINTypeA/AAAA append {name, A/AAAA, IN, TTL 30, address} and,
+// when no question carries that name yet, first a question {name, A/AAAA, IN}.
+func (c apiCase) model() msgCase {
+	m := msgCase{ID: c.ID, Flags: c.Flags}
+	for _, op := range c.Ops {
+		switch op.Kind {
+		case "question":
+			m.Questions = append(m.Questions, jQ{op.Name, op.Type, op.Class})
+		case "answer":
+			r := op.RR
+			r.Name, r.Type, r.Class = op.Name, op.Type, op.Class
+			m.Answers = append(m.Answers, r)
+		default:
+			typ := llmnr.TypeA
+			if op.Kind == "aaaa" {
+				typ = llmnr.TypeAAAA
+			}
+			found := false
+			for _, q := range m.Questions {
+				if q.Name.text() == op.Name.text() {
+					found = true
+				}
+			}
+			if !found {
+				m.Questions = append(m.Questions, jQ{op.Name, typ, llmnr.ClassIN})
+			}
+			m.Answers = append(m.Answers, jRR{Name: op.Name, Type: typ, Class: llmnr.ClassIN, TTL: 30, RData: op.RR.RData})
+		}
+	}
+	return m
+}
+
+func checkBuildAPI(c apiCase) []vf.Finding {
+	m := llmnr.NewMessage()
+	m.ID, m.Flags = c.ID, c.Flags
+	for i, op := range c.Ops {
+		var err error
+		var who string
+		switch op.Kind {
+		case "question":
+			who, err = "Message.AddQuestion", m.AddQuestion(op.Name.text(), op.Type, op.Class)
+		case "answer":
+			r := op.RR
+			r.Name, r.Type, r.Class = op.Name, op.Type, op.Class
+			who, err = "Message.AddAnswer", m.AddAnswer(r.lib())
+		case "a":
+			who, err = "Message.AddAnswerClassINTypeA", m.AddAnswerClassINTypeA(op.Name.text(), net.IP(op.RR.RData).String())
+		default:
+			who, err = "Message.AddAnswerClassINTypeAAAA", m.AddAnswerClassINTypeAAAA(op.Name.text(), net.IP(op.RR.RData).String())
+		}
+		if err != nil {
+			return []vf.Finding{vf.F(who, "valid-name-rejected", "call %d, name %q (%d labels, %d octets on the wire): %v", i, op.Name.text(), len(op.Name), op.Name.ref().WireLen(), err)}
+		}
+	}
+	want := c.model()
+	var fs []vf.Finding
+	// the Add* calls keep the header counts of the sections they fill
+	if int(m.QDCount) != len(want.Questions) || int(m.ANCount) != len(want.Answers) {
+		fs = append(fs, vf.F("Message.Add*", "header-counts-differ", "QDCOUNT %d ANCOUNT %d after adding %d questions, %d answers", m.QDCount, m.ANCount, len(want.Questions), len(want.Answers)))
+	}
+	if err := m.Validate(); err != nil {
+		fs = append(fs, vf.F("Message.Validate", "valid-message-rejected", "message built by Add*: %v", err))
+	}
+	wire, err := m.Encode()
+	if err != nil {
+		return append(fs, vf.F("Message.Encode", "valid-message-rejected", "%v", err))
+	}
+	got, err := llmnr.DecodeMessage(wire)
+	if err != nil {
+		return append(fs, vf.F("llmnr.DecodeMessage", "own-encoding-rejected", "%v (wire %d bytes)", err, len(wire)))
+	}
+	fs = append(fs, compareLib("DecodeMessage(Encode(built by Add*))", got, want)...)
+	if err := got.Validate(); err != nil {
+		fs = append(fs, vf.F("Message.Validate", "valid-message-rejected", "decoded message: %v", err))
+	}
+	ref, err := dns.Parse(wire)
+	if err != nil {
+		return append(fs, vf.F("Message.Encode", "rfc1035-parser-rejects-output", "%v", err))
+	}
+	return append(fs, compareRef("rfc1035.Parse(Encode(built by Add*))", ref, want)...)
+}
+
+// TestBuildAPI: the message is assembled the way callers do, through NewMessage, AddQuestion,
+// AddAnswer and AddAnswerClassINTypeA/AAAA; every valid name must be accepted.
+func TestBuildAPI(t *testing.T) {
+	s := vf.Begin(t, P, "build-api")
+	vf.Rapid(s, vf.N(8000, 100000), func(t *rapid.T) apiCase {
+		var pool []jName
+		c := apiCase{ID: rapid.Uint16().Draw(t, "id"), Flags: rapid.Uint16().Draw(t, "flags")}
+		for i, n := 0, rapid.IntRange(1, 6).Draw(t, "nops"); i < n; i++ {
+			op := apiOp{Kind: rapid.SampledFrom([]string{"question", "answer", "a", "aaaa"}).Draw(t, "op"), Name: genName(t, &pool)}
+			switch op.Kind {
+			case "question":
+				op.Type, op.Class = rapid.Uint16().Draw(t, "qtype"), rapid.Uint16().Draw(t, "qclass")
+			case "answer":
+				op.RR = genRR(t, &pool, 64)
+				op.Name, op.Type, op.Class = op.RR.Name, op.RR.Type, op.RR.Class
+				op.RR.Name, op.RR.Type, op.RR.Class = nil, 0, 0
+			case "a":
+				op.RR.RData = rapid.SliceOfN(rapid.Byte(), 4, 4).Draw(t, "ipv4")
+			default:
+				op.RR.RData = rapid.SliceOfN(rapid.Byte(), 16, 16).Draw(t, "ipv6")
+			}
+			c.Ops = append(c.Ops, op)
+		}
 		return c
-	}, checkLibParsesRef, func(c msgCase) bool { return countPointers(c) > 0 })
+	}, func(c apiCase) []vf.Finding {
+		for _, op := range c.Ops {
+			for _, l := range op.Name {
+				if len(l) == 63 {
+					s.Class("label-of-63-octets")
+				}
+			}
+			if op.Name.ref().WireLen() >= 250 {
+				s.Class("name-within-5-octets-of-255")
+			}
+		}
+		return checkBuildAPI(c)
+	}, func(c apiCase) bool { return len(c.Ops) >= 2 })
 }
 
 // ---- illegal pointers -----------------------------------------------------------------------
